@@ -32,7 +32,8 @@ ASSUME = ["single inheritance; a generic class's first base is a generic alias o
 RULE = ("random class models (inheritance depth <= 3, 1-2 type parameters renamed and reordered along the chain, type variables "
         "at nesting depth 0-3 in return annotations, in base-class arguments and in an Iterable base, classes named like typing "
         "exports (Container, Sequence, Collection, Reversible), class- and method-level callbacks that return a new call node "
-        "(renamed / wrapped) on classes whose method results are used as sub-expressions, fixed "
+        "(renamed / wrapped) on classes whose method results are used as sub-expressions, a dataclass whose fields carry string "
+        "annotations (forward references; whole models under `from __future__ import annotations`), fixed "
         "non-generic subclasses, Iterable subclasses with extra parameters, a registered custom collection, unannotated "
         "methods) and well-typed expressions generated with their expected type (method chains, Select/SelectMany/Where/"
         "First/Count/len/subscript at depth <= 3, comparisons, and/or, int/float arithmetic, dict fields, conditionals); "
@@ -126,7 +127,11 @@ class Spec:
               "base": inst(BASE), "mid": inst(MID), "leaf": inst("Leaf"), "fixed": ("c", "Fixed", []),
               "grouped": inst("Grouped"), "blocks": inst("Blocks"), "nested": nest(r.choice(E + [("p", "int")]), 2),
               "it": inst("MyIter"), "e0s": ("it", E[0]), "e1s": ("it", E[1]), "mids": ("it", inst(MID)),
-              "e0": E[0]}
+              "e0": E[0], "rec": ("c", "Rec", [])}
+        # a dataclass whose fields are annotated with forward references (strings), as user code writes them
+        self.fields = {"Rec": {"lead": E[0], "count": ("p", "int"), "subs": ("it", E[1]), "best": inst(MID)}}
+        self.add("Rec", [], None, {})
+        self.future = r.random() < 0.3          # the whole model under `from __future__ import annotations`
         self.add("Ev", [], None, ev)
 
     def add(self, name, params, base, methods):
@@ -139,6 +144,8 @@ class Spec:
         for name in self.order:
             c = self.classes[name]
             d = {"name": name, "methods": [{"name": m, "params": [], "ret": (src(t) if t else None)} for m, t in c["methods"].items()]}
+            if name in self.fields:
+                d["dataclass"] = [(f, repr(src(t)) if i % 2 == 0 else src(t)) for i, (f, t) in enumerate(self.fields[name].items())]
             if c["base"] is not None:
                 d["base"] = src(c["base"])
                 if c["params"] and c["base"][0] == "c" and [a for a in c["base"][2]] != [("v", p) for p in c["params"]]:
@@ -166,7 +173,8 @@ class Spec:
                     cid = "m_%s_%s" % (d["name"], m["name"])
                     m["cb"] = cid
                     cbs[cid] = {"md": None, "rw": r.choice([("rename", m["name"] + "_v2"), ("wrap", "wm"), ("id",)])}
-        return {"typevars": used, "classes": cl, "functions": [], "callbacks": cbs}
+        return {"typevars": used, "classes": cl, "functions": [], "callbacks": cbs,
+                "header": "from __future__ import annotations\n" if self.future else ""}
 
     # what the annotations imply
     def method(self, t, name):
@@ -208,6 +216,11 @@ class G:
         """an expression starting from [v : t]; -> (ast, type)"""
         r = self.r
         for _ in range(r.randrange(1, 5)):
+            if t[0] == "c" and t[1] in self.s.fields:
+                f = r.choice(sorted(self.s.fields[t[1]]))
+                self.interesting = True
+                v, t = A(v, f), self.s.fields[t[1]][f]
+                continue
             if t[0] == "c" and t[1] in self.s.classes:
                 el = self.s.elem(t)
                 ms = self.s.methods_of(t)
